@@ -36,9 +36,9 @@ RULE = ("Random grids (2-8 points, gaps 60 s..7 d, given shuffled with a duplica
         "late fold or warm-up or markov).")
 ASSUMPTIONS = ["when a new-date notification must be sent is not stated by the property: only its stamp and position are judged",
                "episodes aborted by TrackRecord's duplicate-timestamp rejection (DESIGN 4.2-c) are judged on the delivered prefix"]
-REQUIRED = ["C04:exchange-exactly-once", "C04:delivery-sequence", "C04:second-observer", "C04:timestamps-nondecreasing", "C04:env-notification-stamp",
+REQUIRED = ["C04:new-date-notifications", "C04:exchange-exactly-once", "C04:delivery-sequence", "C04:second-observer", "C04:timestamps-nondecreasing", "C04:env-notification-stamp",
             "C04:clock-in-callback", "C04:rebalance-stamp", "C04:latency-refused"]
-REQUIRED_CATS = ["refused-construction-on-the-same-transmitter", "grid-extended-then-second-env", "observer:inherited-callbacks", "second-env-same-transmitter", "events-added-on-empty-timesteps-then-second-env", "add_timesteps", "add_custom_events", "latency>0", "markov", "warmup", "late-fold", "episode-length", "event-after-grid", "event-before-grid",
+REQUIRED_CATS = ["month-like-gaps", "refused-construction-on-the-same-transmitter", "grid-extended-then-second-env", "observer:inherited-callbacks", "second-env-same-transmitter", "events-added-on-empty-timesteps-then-second-env", "add_timesteps", "add_custom_events", "latency>0", "markov", "warmup", "late-fold", "episode-length", "event-after-grid", "event-before-grid",
                  "event-at-latency-bound"]
 REQUIRED_HITS = ["Broker.rebalance"]
 TECHNIQUE = "runtime monitoring: recording observer + hook markers compared with an independent delivery-schedule model"
@@ -54,6 +54,11 @@ def case(ctx, i, tier):
     t0 = datetime(2020, 1, 1, rng.choice([0, 9, 23]))
     n = rng.randint(2, 8)
     gaps = [rng.choice([60, 60, 3600, 86400, 7 * 86400]) for _ in range(n - 1)]
+    if rng.random() < 0.2:
+        # monthly / four-weekly / yearly bars: consecutive events on different dates with the same day number
+        gaps = [86400 * rng.choice([28, 29, 30, 31, 365]) for _ in range(n - 1)]
+        t0 = datetime(rng.choice([2019, 2020]), rng.choice([1, 7, 12]), rng.choice([1, 28, 31]), rng.choice([0, 9]))
+        ctx.cat("month-like-gaps")
     grid = [t0]
     for g in gaps:
         grid.append(grid[-1] + timedelta(seconds=g))
@@ -309,9 +314,19 @@ def case(ctx, i, tier):
             ctx.check("C04:second-observer", [x[1] for x in sink2.log] == exp2, got=[x[1] for x in sink2.log][:30], want=exp2[:30])
             last = None
             last_m = None
+            prev_ev, n_newdate = None, 0
             for x in log:
                 if x[0] in ("REBEND", "TX"):
                     continue
+                # the environment's own new-date notification: exactly one between two consecutive delivered events
+                # that fall on different calendar DATES (not merely different day numbers), none otherwise
+                if x[0] == "NewDate":
+                    n_newdate += 1
+                elif x[0] in ("M", "X"):
+                    if prev_ev is not None:
+                        ctx.check("C04:new-date-notifications", n_newdate == (1 if prev_ev.date() != x[2].date() else 0),
+                                  previous=prev_ev, event=x[2], notifications=n_newdate, fold=fold)
+                    prev_ev, n_newdate = x[2], 0
                 if x[0] == "REB":
                     if last_m is not None:
                         ctx.check("C04:rebalance-stamp", x[2] == last_m and x[3] == last_m, stamp=x[2], latest=last_m)
